@@ -616,6 +616,294 @@ let run_cfg (x : sexp) : string =
            acc ^ (if Cfg.cfg_wfb g then " wf " else " NOT-WF ") ^ String.concat ";" (List.map show (Cfg.cfg_view g)))
   | _ -> failwith "cfg"
 
+(* ==== BEGIN C08: mutability.rs / function_calls.rs (Model/Mutability.v) =========
+   Stream `mut`.  Payload: the s-expression printed by the harness stream `typed`
+   (grammar in harness/src/mutser.rs): the typed declarations in the order in which
+   Compiler::analyze_and_resolve hands them to Analyzer::analyze.
+   Result: `codes [..] raw [..]`
+     raw   = use_function codes ++ fc pass codes ++ mutability pass codes, each pass
+             run by the model's own pass functions (fc_body, mut_program) on the tree
+             that pass sees in analyzer.rs (function_calls first, then mutability);
+     codes = the same after the effects BETWEEN stages that the model header lists as
+             not modelled: a node that mutability.rs replaces by Poison loses the
+             function_calls errors stored below it, and resolver.rs does not report
+             the deref_type error of a Deref whose reference fails to resolve.
+   How the glue composes the passes (every decision is taken by a model function):
+   * a call whose [use_function] check fails is replaced, BEFORE the passes, by the
+     marker [ECall (2^32 + code) []] / [SMethodCall (2^32 + code) []] (resolution ids
+     are u32, so such names are free); a marker is inert in both passes and, like the
+     Poison that replaces the real call, leaves is_immediate_function_argument false;
+     the arguments of a failing call are dropped with it;
+   * mutability.rs sees markers as EPoison / SOther and declared types through
+     [fc_decl_type]  ([mx] [mst] [md]);
+   * [prune] removes what mutability.rs poisons (decided by [check_assignment],
+     [check_address_taken], [use_variable] in the state [mut_stmt]/[mut_decl] reach
+     at that point) and clears the deref_type of a Deref with a failing index. *)
+module M = Mutability
+module Option = Stdlib.Option
+
+let marker_base = 0x1_0000_0000
+let marker (c : coq_N) : coq_N = n_of_int (marker_base + int_of_n c)
+let is_marker (f : coq_N) : bool = int_of_n f >= marker_base
+let inert_name : coq_N = n_of_int marker_base
+
+let rec mut_ty (s : sexp) : M.mty =
+  match s with
+  | L [A "prim"; A k] -> M.MPrim (num k)
+  | L [A "arr"; e; A n] -> M.MArray (mut_ty e, num n)
+  | L [A "arrn"; e; A n] -> M.MArrayNamed (mut_ty e, num n)
+  | L [A "slice"; e] -> M.MSlice (mut_ty e)
+  | L [A "sliceptr"; e] -> M.MSlicePointer (mut_ty e)
+  | L [A "endless"; e] -> M.MEndless (mut_ty e)
+  | L [A "arraylike"; e] -> M.MArraylike (mut_ty e)
+  | L [A "struct"; A n] -> M.MStruct (num n)
+  | L [A "word"; A n] -> M.MWord (num n)
+  | L [A "unresolved"] -> M.MUnresolved
+  | L [A "ptr"; e] -> M.MPointer (mut_ty e)
+  | L [A "view"; e] -> M.MView (mut_ty e)
+  | _ -> failwith "mut ty"
+let mut_pty (s : sexp) : M.pty = match s with A "?" -> M.PNone | A "!" -> M.PErr | t -> M.POk (mut_ty t)
+let mut_oty (s : sexp) : M.mty option = match s with A "!" -> None | t -> Some (mut_ty t)
+let mut_oname (s : sexp) : coq_N option = match s with A "_" -> None | A n -> Some (num n) | _ -> failwith "mut name"
+
+(* function_calls::Analyzer.functions, filled by Analyzer::declare *)
+let mut_ftab : (string, M.param list) Hashtbl.t = Hashtbl.create 16
+
+let mut_call_failure (f : string) (b : string) (tys : sexp list) : coq_N option =
+  if b <> "-" then None     (* builtins: arity errors are raised by the typer, never here *)
+  else match Hashtbl.find_opt mut_ftab f with
+    | None -> None          (* the real analyzer panics (unreachable!) *)
+    | Some ps ->
+        M.use_function ps
+          (List.map (function L [A d; t] -> (d = "1", mut_pty t) | _ -> failwith "mut argty") tys)
+
+let rec mut_expr_of (s : sexp) : M.expr =
+  match s with
+  | L [A "leaf"] -> M.ELeaf
+  | L [A "bin"; l; r] -> M.EBinary (mut_expr_of l, mut_expr_of r)
+  | L [A "un"; e] -> M.EUnary (mut_expr_of e)
+  | L (A "arrlit" :: es) -> M.EArrayLit (List.map mut_expr_of es)
+  | L (A "structural" :: es) -> M.EStructural (List.map mut_expr_of es)
+  | L [A "paren"; e] -> M.EParen (mut_expr_of e)
+  | L [A "coerce"; e] -> M.EAutocoerce (mut_expr_of e)
+  | L [A "cast"; e] -> M.ECast (mut_expr_of e)
+  | L [A "deref"; r; t] -> M.EDeref (mut_ref_of r, mut_pty t)
+  | L [A "lenof"; r] -> M.ELengthOf (mut_ref_of r)
+  | L (A "call" :: A f :: A b :: L (A "argtys" :: tys) :: args) ->
+      (match mut_call_failure f b tys with
+       | Some c -> M.ECall (marker c, [])
+       | None -> M.ECall (num f, List.map mut_expr_of args))
+  | L [A "poison"] -> M.EPoison
+  | _ -> failwith "mut expr"
+and mut_ref_of (s : sexp) : M.reference =
+  match s with
+  | L (A "ref" :: b :: A ad :: steps) -> M.Ref (mut_oname b, List.map mut_step_of steps, num ad)
+  | _ -> failwith "mut ref"
+and mut_step_of (s : sexp) : M.rstep =
+  match s with
+  | L [A "elem"; e] -> M.Element (mut_expr_of e)
+  | L [A "mem"; A m] -> M.Member (num m)
+  | L [A "autoderef"] -> M.Autoderef
+  | L [A "autoview"] -> M.Autoview
+  | L [A "deslice-view"] -> M.AutodesliceByView
+  | L [A "deslice-ptr"] -> M.AutodesliceByPointer
+  | L [A "deslice-len"] -> M.AutodesliceLength
+  | _ -> failwith "mut step"
+
+let rec mut_stmt_of (s : sexp) : M.stmt =
+  match s with
+  | L [A "var"; A x; v; t] ->
+      M.SDeclaration (num x, (match v with L [A "novalue"] -> None | e -> Some (mut_expr_of e)), mut_pty t)
+  | L [A "assign"; r; e] -> M.SAssignment (mut_ref_of r, mut_expr_of e)
+  | L (A "mcall" :: A f :: A b :: L (A "argtys" :: tys) :: args) ->
+      (match mut_call_failure f b tys with
+       | Some c -> M.SMethodCall (marker c, [])
+       | None -> M.SMethodCall (num f, List.map mut_expr_of args))
+  | L [A "if"; l; r; th] -> M.SIf (mut_expr_of l, mut_expr_of r, mut_stmt_of th, None)
+  | L [A "if"; l; r; th; el] -> M.SIf (mut_expr_of l, mut_expr_of r, mut_stmt_of th, Some (mut_stmt_of el))
+  | L (A "block" :: ss) -> M.SBlock (List.map mut_stmt_of ss)
+  | L [A "other"] -> M.SOther
+  | _ -> failwith "mut stmt"
+
+let mut_params_of (s : sexp) : M.param list =
+  match s with
+  | L (A "params" :: ps) ->
+      List.map (function
+        | L [A "param"; n; t] -> { M.p_name = mut_oname n; M.p_type = mut_oty t }
+        | _ -> failwith "mut param") ps
+  | _ -> failwith "mut params"
+
+let mut_decl_of (s : sexp) : M.decl =
+  match s with
+  | L [A "const"; A x; t] -> M.DConstant (num x, mut_oty t)
+  | L [A "fn"; A _; ps; L [A "nobody"]] -> M.DFunction (mut_params_of ps, None)
+  | L [A "fn"; A _; ps; L [A "body"; L (A "stmts" :: ss); ret]] ->
+      let ret = match ret with L [A "ret"; e] -> Some e | L [A "noret"] -> None | _ -> failwith "mut ret" in
+      (* source order: statements, then the return value *)
+      let ss = List.map mut_stmt_of ss in
+      M.DFunction (mut_params_of ps, Some { M.fb_statements = ss; M.fb_return = Option.map mut_expr_of ret })
+  | L [A "fnhead"; A _; ps] -> M.DFunctionHead (mut_params_of ps)
+  | L [A "struct"; A _; L (A "members" :: ms)] -> M.DStructure (List.map mut_oname ms)
+  | L [A "other"] -> M.DOther
+  | _ -> failwith "mut decl"
+
+(* the tree mutability.rs sees *)
+let rec mx (e : M.expr) : M.expr =
+  match e with
+  | M.ELeaf | M.EPoison -> e
+  | M.EBinary (l, r) -> M.EBinary (mx l, mx r)
+  | M.EUnary x -> M.EUnary (mx x)
+  | M.EParen x -> M.EParen (mx x)
+  | M.EAutocoerce x -> M.EAutocoerce (mx x)
+  | M.ECast x -> M.ECast (mx x)
+  | M.EArrayLit es -> M.EArrayLit (List.map mx es)
+  | M.EStructural es -> M.EStructural (List.map mx es)
+  | M.EDeref (r, t) -> M.EDeref (mr r, t)
+  | M.ELengthOf r -> M.ELengthOf (mr r)
+  | M.ECall (f, args) -> if is_marker f then M.EPoison else M.ECall (f, List.map mx args)
+and mr (r : M.reference) : M.reference = match r with M.Ref (b, ss, ad) -> M.Ref (b, List.map ms ss, ad)
+and ms (s : M.rstep) : M.rstep = match s with M.Element a -> M.Element (mx a) | _ -> s
+let rec mst (s : M.stmt) : M.stmt =
+  match s with
+  | M.SDeclaration (x, v, t) -> M.SDeclaration (x, Option.map mx v, fst (M.fc_decl_type t))
+  | M.SAssignment (r, v) -> M.SAssignment (mr r, mx v)
+  | M.SMethodCall (f, args) -> if is_marker f then M.SOther else M.SMethodCall (f, List.map mx args)
+  | M.SIf (cl, cr, th, el) -> M.SIf (mx cl, mx cr, mst th, Option.map mst el)
+  | M.SBlock b -> M.SBlock (List.map mst b)
+  | M.SOther -> s
+let md (d : M.decl) : M.decl =
+  match d with
+  | M.DFunction (ps, Some b) ->
+      M.DFunction (ps, Some { M.fb_statements = List.map mst b.M.fb_statements; M.fb_return = Option.map mx b.M.fb_return })
+  | _ -> d
+
+(* use_function codes still in a tree, in tree order *)
+let rec markers_e (e : M.expr) : coq_N list =
+  match e with
+  | M.ELeaf | M.EPoison -> []
+  | M.EBinary (l, r) -> markers_e l @ markers_e r
+  | M.EUnary x | M.EParen x | M.EAutocoerce x | M.ECast x -> markers_e x
+  | M.EArrayLit es | M.EStructural es -> List.concat_map markers_e es
+  | M.EDeref (r, _) | M.ELengthOf r -> markers_r r
+  | M.ECall (f, args) ->
+      if is_marker f then (if f = inert_name then [] else [n_of_int (int_of_n f - marker_base)])
+      else List.concat_map markers_e args
+and markers_r (r : M.reference) : coq_N list =
+  match r with M.Ref (_, ss, _) -> List.concat_map (function M.Element a -> markers_e a | _ -> []) ss
+let rec markers_s (s : M.stmt) : coq_N list =
+  match s with
+  | M.SDeclaration (_, v, _) -> (match v with Some e -> markers_e e | None -> [])
+  | M.SAssignment (r, v) -> markers_r r @ markers_e v
+  | M.SMethodCall (f, args) -> markers_e (M.ECall (f, args))
+  | M.SIf (cl, cr, th, el) ->
+      markers_e cl @ markers_e cr @ markers_s th @ (match el with Some e -> markers_s e | None -> [])
+  | M.SBlock b -> List.concat_map markers_s b
+  | M.SOther -> []
+
+(* does resolver.rs fail on this expression for a reason that is already in the typed tree? *)
+let rec prefailed_e (e : M.expr) : bool =
+  match e with
+  | M.ELeaf -> false
+  | M.EPoison -> true
+  | M.EBinary (l, r) -> prefailed_e l || prefailed_e r
+  | M.EUnary x | M.EParen x | M.EAutocoerce x | M.ECast x -> prefailed_e x
+  | M.EArrayLit es | M.EStructural es | M.ECall (_, es) -> List.exists prefailed_e es
+  | M.EDeref (r, t) -> prefailed_r r || (match t with M.POk _ -> false | _ -> true)
+  | M.ELengthOf r -> prefailed_r r
+and prefailed_r (r : M.reference) : bool =
+  match r with
+  | M.Ref (None, _, _) -> true
+  | M.Ref (_, ss, _) -> List.exists (function M.Element a -> prefailed_e a | _ -> false) ss
+
+(* resolver.rs returns Err for this expression once both passes have run *)
+let fails (v : M.menv) (a : M.expr) : bool =
+  prefailed_e a || markers_e a <> [] || snd (M.fc_expr false a) <> [] || M.mut_expr v (mx a) <> []
+
+(* a node without codes that leaves is_immediate_function_argument as [e] does *)
+let inert (e : M.expr) : M.expr =
+  if fst (M.fc_expr true e) then M.EPoison else M.ECall (inert_name, [])
+
+let rec px (v : M.menv) (e : M.expr) : M.expr =
+  match e with
+  | M.ELeaf | M.EPoison -> e
+  | M.EBinary (l, r) -> M.EBinary (px v l, px v r)
+  | M.EUnary x -> M.EUnary (px v x)
+  | M.EParen x -> M.EParen (px v x)
+  | M.EAutocoerce x -> M.EAutocoerce (px v x)
+  | M.ECast x -> M.ECast (px v x)
+  | M.EArrayLit es -> M.EArrayLit (List.map (px v) es)
+  | M.EStructural es -> M.EStructural (List.map (px v) es)
+  | M.ECall (f, args) -> M.ECall (f, List.map (px v) args)
+  | M.EDeref (r, t) ->
+      if M.check_address_taken v r <> [] then inert e
+      else
+        let dirty = match r with
+          | M.Ref (None, _, _) -> true
+          | M.Ref (_, ss, _) -> List.exists (function M.Element a -> fails v a | _ -> false) ss in
+        M.EDeref (pr v r, if dirty then M.PNone else t)
+  | M.ELengthOf (M.Ref (b, _, _) as r) ->
+      if M.uv_codes (M.use_variable v b false) <> [] then inert e else M.ELengthOf (pr v r)
+and pr (v : M.menv) (r : M.reference) : M.reference =
+  match r with
+  | M.Ref (b, ss, ad) -> M.Ref (b, List.map (function M.Element a -> M.Element (px v a) | s -> s) ss, ad)
+
+let rec pst (v : M.menv) (s : M.stmt) : M.menv * M.stmt =
+  let v' = fst (M.mut_stmt v (mst s)) in
+  (v',
+   match s with
+   | M.SDeclaration (x, value, t) -> M.SDeclaration (x, Option.map (px v) value, t)
+   | M.SAssignment (r, value) ->
+       if M.check_assignment v r <> [] then M.SOther else M.SAssignment (pr v r, px v value)
+   | M.SMethodCall (f, args) -> M.SMethodCall (f, List.map (px v) args)
+   | M.SIf (cl, cr, th, el) ->
+       let (v1, th') = pst v th in
+       M.SIf (px v cl, px v cr, th', Option.map (fun e -> snd (pst v1 e)) el)
+   | M.SBlock b -> M.SBlock (snd (psts v b))
+   | M.SOther -> s)
+and psts (v : M.menv) (l : M.stmt list) : M.menv * M.stmt list =
+  match l with
+  | [] -> (v, [])
+  | s :: rest -> let (v1, s') = pst v s in let (v2, rest') = psts v1 rest in (v2, s' :: rest')
+
+let pd (v : M.menv) (d : M.decl) : M.menv * M.decl =
+  let v' = fst (M.mut_decl v (md d)) in
+  (v',
+   match d with
+   | M.DFunction (ps, Some b) ->
+       let v0 = fst (M.mut_decl v (M.DFunctionHead ps)) in
+       let (v1, ss) = psts v0 b.M.fb_statements in
+       M.DFunction (ps, Some { M.fb_statements = ss; M.fb_return = Option.map (px v1) b.M.fb_return })
+   | _ -> d)
+
+let fc_program (ds : M.decl list) : coq_N list =
+  List.concat_map (function M.DFunction (_, Some b) -> M.fc_body b | _ -> []) ds
+let markers_program (ds : M.decl list) : coq_N list =
+  List.concat_map (function
+    | M.DFunction (_, Some b) ->
+        List.concat_map markers_s b.M.fb_statements
+        @ (match b.M.fb_return with Some e -> markers_e e | None -> [])
+    | _ -> []) ds
+
+let run_mut (x : sexp) : string =
+  match x with
+  | L (A "prog" :: ds) ->
+      Hashtbl.reset mut_ftab;
+      (* Analyzer::declare: every function of the module before the first body *)
+      List.iter (function
+        | L (A ("fn" | "fnhead") :: A f :: ps :: _) -> Hashtbl.replace mut_ftab f (mut_params_of ps)
+        | _ -> ()) ds;
+      let t_fc = List.map mut_decl_of ds in
+      let t_mut = List.map md t_fc in
+      let mutc = snd (M.mut_program [] t_mut) in
+      let raw = markers_program t_fc @ fc_program t_fc @ mutc in
+      let pruned =
+        let rec go v = function [] -> [] | d :: rest -> let (v1, d') = pd v d in d' :: go v1 rest in
+        go [] t_fc in
+      let codes = markers_program pruned @ fc_program pruned @ mutc in
+      "codes " ^ codes_to_string codes ^ " raw " ^ codes_to_string raw
+  | _ -> failwith "mut"
+(* ==== END C08 ================================================================== *)
+
 let dispatch (stream : string) (x : sexp) : string =
   match stream with
   | "labels" -> run_labels x
@@ -629,6 +917,7 @@ let dispatch (stream : string) (x : sexp) : string =
   | "linkage" -> run_linkage x
   | "cli" -> run_cli x
   | "resolve" -> run_resolve x
+  | "mut" -> run_mut x
   | "cfg" -> run_cfg x
   | "lex-alpha" -> run_lex_alpha x
   | "lex-delta" -> run_lex_delta x
